@@ -45,6 +45,44 @@ def sqlite_rejects(text, pred, schema):
   return None
 
 
+def concrete_fallback(case, pred, text, schema, strings, K, range_bound, list_nothing, trials=6):
+  """reference vs real SQLite on seeded concrete databases -> replay dict of the first
+  disagreement, or None.  Used only when the emitted SQL is outside the modelled subset."""
+  import random
+  rnd = random.Random(len(text) * 7919 + len(pred))
+  try:
+    D = dbm.SymDB(schema, K, case.nullable)
+    ref = refsem.Ref(case.prog, D.store(), strings, range_bound, macros=case.macros, depths=case.depths,
+                     list_nothing=list_nothing, order_specs=getattr(case, 'order_specs', None))
+    rrel = ref.relation(pred)
+    c = real.compile_pred(text, pred)
+  except Exception:  # noqa: BLE001
+    return None
+  modes = e1.col_modes(rrel)
+  for _ in range(trials):
+    rows = {t: [tuple(rnd.randint(-1, 3) for _c in cols) for _i in range(rnd.randint(0, K))]
+            for t, cols in schema.items()}
+    s = z3.Solver()
+    s.add(*D.constraints)
+    s.add(*D.fix(rows))
+    if str(s.check()) != 'sat':
+      continue
+    m = s.model()
+    if not all(z3.is_true(m.eval(V.as_bool(a), model_completion=True)) for a in ref.assumptions):
+      continue
+    expected = V.concretize_rel(m, rrel, strings)
+    try:
+      hdr, real_rows = e1.run_real(c.statements(), schema, rows)
+    except Exception as e:  # noqa: BLE001
+      return {'program': text, 'pred': pred, 'db': rows, 'schema': schema, 'sqlite_error': repr(e),
+              'real_rows': None, 'expected_rows': expected}
+    same, a, b = e1.compare_concrete(real_rows, expected, modes, ordered=pred in getattr(case, 'ordered_preds', ()))
+    if not same:
+      return {'program': text, 'pred': pred, 'db': rows, 'schema': schema, 'statements': c.statements(),
+              'real_rows': a, 'expected_rows': b, 'real_header': hdr}
+  return None
+
+
 def validate_case(case, prop_id, out_dir, K=None, timeout_ms=None, range_bound=3,
                   known=None, compaction=True, list_nothing='null'):
   """-> dict(results=[...per predicate...])"""
@@ -77,6 +115,15 @@ def validate_case(case, prop_id, out_dir, K=None, timeout_ms=None, range_bound=3
           r['replay'] = {'property': prop_id, 'program': text, 'pred': pred, 'db': {},
                          'schema': schema, 'sqlite_error': err,
                          'real_rows': None, 'expected_rows': None}
+          continue
+        # ... and, as a safety net that is *not* a solver verdict, the reference is compared
+        # with real SQLite on a few seeded concrete databases (reported as such)
+        fb = concrete_fallback(case, pred, text, schema, strings, K, range_bound, list_nothing)
+        if fb:
+          r['status'] = 'violation'
+          r['kind'] = 'rows (SQL not encodable; found by the concrete fallback, not by the solver)'
+          r['replay'] = fb
+          r['replay']['property'] = prop_id
         continue
       except real.DIAGNOSTICS as e:
         r['status'] = 'rejected'
